@@ -102,6 +102,14 @@ def configure(eng):
 
     def setitem(e, obj, key, val, st, node):
         if isinstance(obj, VObj) and obj.cls == 'Locals':
+            # publishing a frame under a table's name in the function's own namespace only works for names the function does not
+            # use itself: a table called x, k, v, df, e, ctx or self is shadowed by (or shadows) a local variable
+            import ast as _ast
+            own = sorted({a.arg for a in e.cur_node.args.args} | {n.id for n in _ast.walk(e.cur_node) if isinstance(n, _ast.Name) and isinstance(n.ctx, _ast.Store)}
+                         | {h.name for h in _ast.walk(e.cur_node) if isinstance(h, _ast.ExceptHandler) and h.name})
+            if isinstance(key, VOpaque):
+                e.oblige(f"{e.cur_key}#table-name-is-not-a-local-variable@{e.site_ordinal('tblname', node)}", st,
+                         z3.And(*[z3.Not((key == lift(nm)).t) for nm in own]) if own else z3.BoolVal(True), kind='db-view', locals=own)
             st.ghost['view'] = G(z3.Store(st.ghost['view'].t, e.as_obj(key), e.as_obj(val)))
             return True
         if isinstance(obj, VOpaque):
@@ -112,6 +120,10 @@ def configure(eng):
     def opaque_method(e, o, name, args, kwargs, st, node):
         if name == 'get_dataframe' and not args and not kwargs:
             return [(st, VOpaque(NOW(o.t), nonnull=True))]
+        if name == 'register' and len(args) == 2 and not kwargs:
+            # con.register(name, frame): DuckDB's own binding of a name to a frame
+            st.ghost['view'] = G(z3.Store(st.ghost['view'].t, e.as_obj(args[0]), e.as_obj(args[1])))
+            return [(st, VOpaque(hint='con', nonnull=True))]
         if name == 'execute':
             e.oblige(f"{e.cur_key}#sql-sees-the-current-frame-of-every-table@{e.site_ordinal('exec', node)}", st,
                      all_bound(st, st.ghost['dom'].t), kind='db-view')
@@ -120,7 +132,7 @@ def configure(eng):
             return [(st, VOpaque(hint='cursor', nonnull=True)), e.exc(s2, 'Exception', node)]
         return None
     eng.hooks['opaque_method'] = opaque_method
-    eng.opaque_methods |= {'get_dataframe', 'execute'}
+    eng.opaque_methods |= {'get_dataframe', 'execute', 'register'}
 
 
 def db_view_check(ctx):
